@@ -33,14 +33,12 @@ Proof.
   destruct i as [|i]; [reflexivity|]. cbn [skipn nth]. apply IH. lia.
 Qed.
 
-Theorem apply_add_ignore : forall f ln c rest, 1 <= ln <= length f ->
-  apply_changes (add_ignore_repl IGN nm f ln c :: rest) f
-  = insert_line (ln - 1) (comment_line IGN nm (indentation (line_at f (ln - 1))) (Some c)) f.
+Theorem apply_own_line : forall f ln C rest, 1 <= ln <= length f ->
+  apply_changes (mk_repl [ln] (Some [C; line_at f (ln - 1)]) :: rest) f = insert_line (ln - 1) C f.
 Proof.
-  intros f ln c rest H. unfold apply_changes, add_ignore_repl.
+  intros f ln C rest H. unfold apply_changes.
   cbn [r_add r_del list_max fold_right sort_desc insert_desc fold_left].
   rewrite Nat.max_0_r. unfold insert_line, line_at.
-  set (C := comment_line IGN nm (indentation (nth (ln - 1) f [])) (Some c)).
   replace ln with (S (ln - 1)) at 1 2 by lia.
   rewrite (firstn_S_nth f (ln - 1) []) by nlia.
   rewrite (skipn_nth_cons f (ln - 1) []) by nlia.
@@ -49,6 +47,32 @@ Proof.
   assert (L : length (firstn (ln - 1) f) = ln - 1) by (rewrite firstn_length; nlia).
   rewrite <- L at 1. rewrite L. rewrite <- L at 1.
   now rewrite del_at_app.
+Qed.
+
+Theorem apply_trailing : forall f ln X rest, 1 <= ln <= length f ->
+  apply_changes (mk_repl [ln] (Some [X]) :: rest) f = set_line (ln - 1) X f.
+Proof.
+  intros f ln X rest H. unfold apply_changes.
+  cbn [r_add r_del list_max fold_right sort_desc insert_desc fold_left].
+  rewrite Nat.max_0_r. unfold set_line.
+  replace ln with (S (ln - 1)) at 1 2 by lia.
+  rewrite (firstn_S_nth f (ln - 1) []) by nlia.
+  replace (S (ln - 1)) with ln by lia.
+  rewrite <- app_assoc. cbn [app].
+  assert (L : length (firstn (ln - 1) f) = ln - 1) by (rewrite firstn_length; nlia).
+  rewrite <- L at 1. rewrite L. rewrite <- L at 1.
+  rewrite del_at_app. replace (S (ln - 1)) with ln by lia. reflexivity.
+Qed.
+
+Theorem apply_add_ignore : forall f ln c rest, 1 <= ln <= length f ->
+  apply_changes (add_ignore_repl IGN nm f ln c :: rest) f
+  = if use_trailing IGN f ln
+    then set_line (ln - 1) (trail_line IGN nm (line_at f (ln - 1)) c) f
+    else insert_line (ln - 1) (comment_line IGN nm (indentation (line_at f (ln - 1))) (Some c)) f.
+Proof.
+  intros f ln c rest H. unfold add_ignore_repl. destruct (use_trailing IGN f ln).
+  - now apply apply_trailing.
+  - now apply apply_own_line.
 Qed.
 
 (* whatever the replacement, nothing outside the touched range moves: the
@@ -208,6 +232,38 @@ Proof.
   rewrite <- LL. rewrite skipn_all, Nat.sub_diag. reflexivity.
 Qed.
 
+(* the replacement that replace_node / remove_node build for a statement spanning lines a..b
+   (get_line_range_for_node returns the consecutive range): everything outside [a, b] is kept,
+   the range is replaced by the new lines *)
+Lemma list_max_seq : forall n a, list_max (seq a (S n)) = a + n.
+Proof.
+  induction n as [|n IH]; intros a.
+  - cbn. lia.
+  - change (seq a (S (S n))) with (a :: seq (S a) (S n)). cbn [list_max fold_right].
+    change (fold_right Nat.max 0 (seq (S a) (S n))) with (list_max (seq (S a) (S n))). rewrite IH. lia.
+Qed.
+
+Theorem apply_range : forall (f : file) a b adds rest,
+  1 <= a -> a <= b -> b <= length f ->
+  apply_changes (mk_repl (seq a (S (b - a))) (Some adds) :: rest) f
+  = firstn (a - 1) f ++ adds ++ skipn b f.
+Proof.
+  intros f a b adds rest A1 AB BL.
+  set (ch := mk_repl (seq a (S (b - a))) (Some adds)).
+  assert (R : forall d, In d (r_del ch) -> a <= d <= b).
+  { intros d IN. unfold ch in IN. cbn [r_del] in IN. apply in_seq in IN. lia. }
+  assert (NE : r_del ch <> []) by (unfold ch; cbn [r_del seq]; discriminate).
+  assert (MX : list_max (r_del ch) = b) by (unfold ch; cbn [r_del]; rewrite list_max_seq; lia).
+  destruct (apply_shape ch rest f adds eq_refl NE (seq_NoDup _ _)) as [pre [E L]].
+  { intros d IN. apply R in IN. nlia. }
+  rewrite MX in E, L. unfold ch in L. cbn [r_del] in L. rewrite seq_length in L.
+  pose proof (apply_keeps_prefix ch rest f (a - 1) NE) as P.
+  rewrite E in P. rewrite firstn_app in P.
+  replace (a - 1 - length pre) with 0 in P by lia. rewrite firstn_O, app_nil_r in P.
+  rewrite firstn_all2 in P by lia.
+  rewrite E. f_equal. apply P. intros d IN. apply R in IN. nlia.
+Qed.
+
 (* ------------------------------------------------------------------ *)
 (* 2. the inserted line is a comment: code lines are untouched         *)
 
@@ -274,69 +330,176 @@ Proof.
       apply (IH i C); [cbn in LE; lia|]. split; [lia|]. intros E. apply N2. lia.
 Qed.
 
-(* the decidable guard of the iteration *)
-Record fix_inv (st : settings) (f : file) (raw : list diag) : Prop := {
+(* ------------------------------------------------------------------ *)
+(* the invariant: reported lines are ordinary code lines                 *)
+
+Definition code_line (l : line) : Prop :=
+  starts_hash l = false /\ (forall c, own_hit IGN nm l c = false) /\ lstrip l <> []
+  /\ ends_backslash (rstrip l) = false.
+
+Record fix_inv (f : file) (raw : list diag) : Prop := {
   inv_lined : forall d, In d raw -> exists n, d_line d = Some n /\ 1 <= n <= length f;
   inv_obey : forall d, In d raw -> d_obey d = true;
   inv_codes : forall d, In d raw -> (d_code d < n_codes)%N;
-  (* the comment for a reported line does not land in / at the end of the leading '#' block at column 0 *)
-  inv_pos : forall d n, In d (main IGN nm st f raw) -> d_line d = Some n ->
-            leading_len f <= n - 1 /\ (leading_len f = n - 1 -> indentation (line_at f (n - 1)) <> 0);
-  (* the line above a reported line is not an own-line ignore comment *)
-  inv_prev : forall d n, In d (main IGN nm st f raw) -> d_line d = Some n -> n >= 2 ->
-             own_any IGN (line_at f (n - 2)) = false;
-  (* one code per reported line *)
-  inv_one : forall d1 d2 n, In d1 (main IGN nm st f raw) -> In d2 (main IGN nm st f raw) ->
-            d_line d1 = Some n -> d_line d2 = Some n -> d_code d1 = d_code d2
+  inv_line : forall d n, In d raw -> d_line d = Some n -> code_line (line_at f (n - 1))
 }.
 
 Definition fixed_by (n0 : nat) (c0 : N) (d : diag) : bool := targets_line n0 d && N.eqb (d_code d) c0.
 
-Lemma not_leading_comment : forall f n c,
-  leading_len f <= n - 1 /\ (leading_len f = n - 1 -> indentation (line_at f (n - 1)) <> 0) ->
-  (c < n_codes)%N ->
-  not_leading f (n - 1) (comment_line IGN nm (indentation (line_at f (n - 1))) (Some c)).
+Lemma main_kept : forall st f raw d, In d (main IGN nm st f raw) -> kept IGN nm f d = true.
 Proof.
-  intros f n c [H1 H2] HC. split; [exact H1|]. intros E.
-  destruct (comment_line_features (indentation (line_at f (n - 1))) c c HC HC) as [_ [_ [SH _]]].
-  rewrite SH. apply Nat.eqb_neq. now apply H2.
+  intros st f raw d IN. rewrite main_is_projection in IN. unfold main_spec in IN.
+  apply filter_In in IN. tauto.
 Qed.
 
-Theorem fix_step_main : forall st f raw d0 rest n0,
-  fix_inv st f raw ->
-  main IGN nm st f raw = d0 :: rest -> d_line d0 = Some n0 ->
-  let C := comment_line IGN nm (indentation (line_at f (n0 - 1))) (Some (d_code d0)) in
-  main IGN nm st (insert_line (n0 - 1) C f) (map (shift_diag n0) raw)
-  = map (shift_diag n0) (filter (fun d => negb (fixed_by n0 (d_code d0) d)) (main IGN nm st f raw)).
+Lemma leading_len_le : forall f i, i < length f -> starts_hash (line_at f i) = false -> leading_len f <= i.
 Proof.
-  intros st f raw d0 rest n0 INV M L0 C.
-  assert (IN0 : In d0 (main IGN nm st f raw)) by (rewrite M; now left).
-  pose proof (main_In_raw _ _ _ _ IN0) as INR.
-  destruct (inv_lined _ _ _ INV d0 INR) as [n [Ln RNG]]. rewrite L0 in Ln. inversion Ln; subst n.
-  pose proof (inv_codes _ _ _ INV d0 INR) as HC0.
-  rewrite (ownline_exact IGN nm st f raw n0 C).
-  - f_equal. apply filter_ext_in. intros d IN. unfold fixed_by. f_equal.
-    destruct (targets_line n0 d); [|reflexivity]. cbn [andb].
-    pose proof (inv_codes _ _ _ INV d (main_In_raw _ _ _ _ IN)) as HC.
-    destruct (comment_line_features (indentation (line_at f (n0 - 1))) (d_code d0) (d_code d) HC0 HC) as [OH _].
-    exact OH.
-  - intros d IN E. destruct (inv_lined _ _ _ INV d IN) as [n [Ln' R]]. rewrite E in Ln'. inversion Ln'. lia.
-  - exact RNG.
-  - apply not_leading_comment; [|exact HC0]. exact (inv_pos _ _ _ INV d0 n0 IN0 L0).
-  - intros GE c. apply own_hit_own_any. exact (inv_prev _ _ _ INV d0 n0 IN0 L0 GE).
+  induction f as [|l r IH]; intros i L H; cbn in L; [lia|]. unfold line_at in *.
+  destruct i as [|i]; cbn in *; [now rewrite H|]. destruct (starts_hash l); [|lia].
+  apply le_n_S. apply IH; [lia|exact H].
 Qed.
 
-Lemma first_lined_main : forall st f raw d0 rest, fix_inv st f raw ->
+Lemma leading_forall : forall f, forallb starts_hash (firstn (leading_len f) f) = true.
+Proof.
+  induction f as [|l r IH]; [reflexivity|]. cbn [leading_len]. destruct (starts_hash l) eqn:E; [|reflexivity].
+  cbn [firstn forallb]. now rewrite E, IH.
+Qed.
+
+(* ------------------------------------------------------------------ *)
+(* a trailing comment on line n                                         *)
+
+Lemma trailing_step_main : forall st f raw n L',
+  well_lined raw -> 1 <= n <= length f ->
+  starts_hash (line_at f (n - 1)) = false -> starts_hash L' = false ->
+  (forall c, own_hit IGN nm (line_at f (n - 1)) c = false) -> (forall c, own_hit IGN nm L' c = false) ->
+  (forall d, In d raw -> trailing_hit IGN nm (line_at f (n - 1)) (d_code d) = true ->
+             trailing_hit IGN nm L' (d_code d) = true) ->
+  main IGN nm st (set_line (n - 1) L' f) raw
+  = filter (fun d => negb (targets_line n d && trailing_hit IGN nm L' (d_code d)
+                           && negb (trailing_hit IGN nm (line_at f (n - 1)) (d_code d))))
+           (main IGN nm st f raw).
+Proof.
+  intros st f raw n L' WL RNG H1 H2 OW OW' MONO.
+  apply (main_change_kept IGN nm).
+  - intros c. unfold file_level. apply (fl_scan_set_line IGN nm); [nlia|exact H1|exact H2].
+  - intros d IN. specialize (WL d IN). specialize (MONO d IN).
+    unfold trailing_hit, own_hit in *.
+    unfold kept, suppressor, targets_line.
+    destruct (d_obey d); cbn [andb]; [|reflexivity].
+    destruct (d_line d) as [ln|]; [|reflexivity].
+    assert (ln <> 0) by (intros ->; now apply WL). clear WL.
+    unfold line_ignore.
+    rewrite !(line_at_set_line) by nlia.
+    destruct (Nat.eqb ln n) eqn:E.
+    + apply Nat.eqb_eq in E. subst ln. rewrite Nat.eqb_refl.
+      destruct (has_bare IGN (line_at f (n - 1)) || has_tag IGN nm (d_code d) (line_at f (n - 1))) eqn:HL.
+      * rewrite (MONO eq_refl). reflexivity.
+      * destruct (has_bare IGN L' || has_tag IGN nm (d_code d) L'); cbn [andb negb]; [now rewrite andb_false_r|].
+        rewrite andb_true_r.
+        destruct (2 <=? n) eqn:L2; cbn [andb]; [|reflexivity]. apply Nat.leb_le in L2.
+        replace (Nat.eqb (n - 2) (n - 1)) with false by (symmetry; apply Nat.eqb_neq; nlia).
+        reflexivity.
+    + apply Nat.eqb_neq in E.
+      replace (Nat.eqb (ln - 1) (n - 1)) with false by (symmetry; apply Nat.eqb_neq; nlia).
+      cbn [andb negb]. rewrite andb_true_r.
+      destruct (has_bare IGN (line_at f (ln - 1)) || has_tag IGN nm (d_code d) (line_at f (ln - 1))); [reflexivity|].
+      destruct (2 <=? ln) eqn:L2; cbn [andb]; [|reflexivity]. apply Nat.leb_le in L2.
+      destruct (Nat.eqb (ln - 2) (n - 1)) eqn:E2; [|reflexivity].
+      apply Nat.eqb_eq in E2. rewrite E2. now rewrite OW', OW.
+Qed.
+
+(* ------------------------------------------------------------------ *)
+(* one step                                                             *)
+
+Lemma first_lined_main : forall st f raw d0 rest, fix_inv f raw ->
   main IGN nm st f raw = d0 :: rest ->
-  exists n0, d_line d0 = Some n0 /\ first_lined (main IGN nm st f raw) = Some (n0, d_code d0).
+  exists n0, d_line d0 = Some n0 /\ first_lined (main IGN nm st f raw) = Some d0 /\ 1 <= n0 <= length f
+             /\ d_obey d0 = true /\ (d_code d0 < n_codes)%N /\ code_line (line_at f (n0 - 1)).
 Proof.
   intros st f raw d0 rest INV M.
   assert (IN0 : In d0 (main IGN nm st f raw)) by (rewrite M; now left).
-  destruct (inv_lined _ _ _ INV d0 (main_In_raw _ _ _ _ IN0)) as [n0 [L0 _]].
-  exists n0. split; [exact L0|]. rewrite M. unfold first_lined. cbn [find]. rewrite L0. cbn beta iota. now rewrite L0.
+  pose proof (main_In_raw _ _ _ _ IN0) as INR.
+  destruct (inv_lined _ _ INV d0 INR) as [n0 [L0 R0]].
+  exists n0. split; [exact L0|]. split.
+  - rewrite M. unfold first_lined. cbn [find]. now rewrite L0.
+  - split; [exact R0|]. split; [exact (inv_obey _ _ INV d0 INR)|]. split; [exact (inv_codes _ _ INV d0 INR)|].
+    exact (inv_line _ _ INV d0 n0 INR L0).
 Qed.
 
-(* shifting is injective on line numbers *)
+Definition step_file (f : file) (n0 : nat) (c0 : N) : file :=
+  if use_trailing IGN f n0
+  then set_line (n0 - 1) (trail_line IGN nm (line_at f (n0 - 1)) c0) f
+  else insert_line (n0 - 1) (comment_line IGN nm (indentation (line_at f (n0 - 1))) (Some c0)) f.
+Definition step_raw (f : file) (n0 : nat) (raw : list diag) : list diag :=
+  if use_trailing IGN f n0 then raw else map (shift_diag n0) raw.
+Definition step_shift (f : file) (n0 : nat) (d : diag) : diag :=
+  if use_trailing IGN f n0 then d else shift_diag n0 d.
+
+Lemma fix_step_some : forall st f raw d0 rest, st U = false -> st B = false ->
+  fix_inv f raw -> main IGN nm st f raw = d0 :: rest ->
+  exists n0, d_line d0 = Some n0 /\
+    fix_step IGN nm st U B f raw = Some (step_file f n0 (d_code d0), step_raw f n0 raw).
+Proof.
+  intros st f raw d0 rest HU HB INV M.
+  destruct (first_lined_main st f raw d0 rest INV M) as [n0 [L0 [FL [R0 [OB _]]]]].
+  exists n0. split; [exact L0|]. unfold fix_step. rewrite emit_no_tail by assumption.
+  rewrite FL, L0, OB. cbn [negb]. unfold step_file, step_raw. rewrite apply_add_ignore by exact R0. reflexivity.
+Qed.
+
+Lemma fix_step_none : forall st f raw, st U = false -> st B = false ->
+  main IGN nm st f raw = [] -> fix_step IGN nm st U B f raw = None.
+Proof. intros st f raw HU HB M. unfold fix_step. rewrite emit_no_tail, M by assumption. reflexivity. Qed.
+
+Lemma well_lined_inv : forall f raw, fix_inv f raw -> well_lined raw.
+Proof. intros f raw INV d IN E. destruct (inv_lined _ _ INV d IN) as [n [L R]]. rewrite E in L. inversion L. lia. Qed.
+
+(* what the step does to the reported diagnostics: exactly the ones on the reported line with the
+   reported code disappear (and, for a comment line, everything moves down with its line) *)
+Theorem fix_step_main : forall st f raw d0 rest n0,
+  fix_inv f raw -> main IGN nm st f raw = d0 :: rest -> d_line d0 = Some n0 ->
+  main IGN nm st (step_file f n0 (d_code d0)) (step_raw f n0 raw)
+  = map (step_shift f n0) (filter (fun d => negb (fixed_by n0 (d_code d0) d)) (main IGN nm st f raw)).
+Proof.
+  intros st f raw d0 rest n0 INV M L0.
+  destruct (first_lined_main st f raw d0 rest INV M) as [n [Ln [_ [R0 [OB [HC0 CL]]]]]].
+  rewrite L0 in Ln. inversion Ln; subst n. clear Ln.
+  destruct CL as [SH [OWN [NBL EB]]].
+  pose proof (well_lined_inv _ _ INV) as WL.
+  unfold step_file, step_raw, step_shift. destruct (use_trailing IGN f n0) eqn:UT.
+  - (* trailing comment *)
+    destruct (trail_line_shape (line_at f (n0 - 1)) (d_code d0) NBL SH) as [SH' [OWN' _]].
+    rewrite (trailing_step_main st f raw n0 _ WL R0 SH SH' OWN OWN').
+    + cbn beta iota. rewrite map_id.
+      apply filter_ext_in. intros d IN. unfold fixed_by. f_equal.
+      destruct (targets_line n0 d) eqn:T; [|reflexivity]. cbn [andb].
+      pose proof (inv_codes _ _ INV d (main_In_raw _ _ _ _ IN)) as HC.
+      rewrite (trail_line_features _ _ _ HC0 HC).
+      (* d is reported, so its own line did not already carry a trailing comment for it *)
+      pose proof (main_kept _ _ _ _ IN) as K. unfold kept, suppressor in K.
+      unfold targets_line in T. apply andb_true_iff in T. destruct T as [T1 T2]. rewrite T1 in K.
+      destruct (d_line d) as [ln|]; [|discriminate]. apply Nat.eqb_eq in T2. subst ln.
+      unfold line_ignore in K. fold (trailing_hit IGN nm (line_at f (n0 - 1)) (d_code d)) in K.
+      destruct (trailing_hit IGN nm (line_at f (n0 - 1)) (d_code d)); [discriminate|]. cbn. now rewrite andb_true_r.
+    + intros d IN H. rewrite (trail_line_features _ _ _ HC0 (inv_codes _ _ INV d IN)). now rewrite H.
+  - (* comment line above *)
+    unfold use_trailing in UT. rewrite EB in UT. cbn [negb andb] in UT.
+    apply orb_false_iff in UT. destruct UT as [UT U3]. apply orb_false_iff in UT. destruct UT as [U1 _].
+    rewrite (ownline_exact IGN nm st f raw n0 _ WL R0).
+    + f_equal. apply filter_ext_in. intros d IN. unfold fixed_by. f_equal.
+      destruct (targets_line n0 d); [|reflexivity]. cbn [andb].
+      pose proof (inv_codes _ _ INV d (main_In_raw _ _ _ _ IN)) as HC.
+      destruct (comment_line_features (indentation (line_at f (n0 - 1))) (d_code d0) (d_code d) HC0 HC) as [OH _].
+      exact OH.
+    + split.
+      * apply leading_len_le; [nlia|exact SH].
+      * intros E.
+        destruct (comment_line_features (indentation (line_at f (n0 - 1))) (d_code d0) (d_code d0) HC0 HC0) as [_ [_ [S _]]].
+        rewrite S. apply Nat.eqb_neq. intros I0. rewrite I0 in U3. cbn [Nat.eqb andb] in U3.
+        rewrite <- E, leading_forall in U3. discriminate.
+    + intros GE c. apply own_hit_own_any.
+      replace (2 <=? n0) with true in U1 by (symmetry; apply Nat.leb_le; lia). exact U1.
+Qed.
+
 Lemma shift_line_inj : forall n0 a b,
   (if n0 <=? a then S a else a) = (if n0 <=? b then S b else b) -> a = b.
 Proof.
@@ -346,69 +509,53 @@ Proof.
 Qed.
 
 Theorem fix_step_inv : forall st f raw d0 rest n0,
-  fix_inv st f raw ->
-  main IGN nm st f raw = d0 :: rest -> d_line d0 = Some n0 ->
-  let C := comment_line IGN nm (indentation (line_at f (n0 - 1))) (Some (d_code d0)) in
-  fix_inv st (insert_line (n0 - 1) C f) (map (shift_diag n0) raw).
+  fix_inv f raw -> main IGN nm st f raw = d0 :: rest -> d_line d0 = Some n0 ->
+  fix_inv (step_file f n0 (d_code d0)) (step_raw f n0 raw).
 Proof.
-  intros st f raw d0 rest n0 INV M L0 C.
-  pose proof (fix_step_main st f raw d0 rest n0 INV M L0) as MAIN. fold C in MAIN.
-  assert (IN0 : In d0 (main IGN nm st f raw)) by (rewrite M; now left).
-  pose proof (main_In_raw _ _ _ _ IN0) as INR.
-  destruct (inv_lined _ _ _ INV d0 INR) as [n [Ln RNG]]. rewrite L0 in Ln. inversion Ln; subst n.
-  pose proof (inv_codes _ _ _ INV d0 INR) as HC0.
-  assert (LEN : length (insert_line (n0 - 1) C f) = S (length f)).
-  { unfold insert_line. rewrite app_length. cbn [length]. rewrite firstn_length, skipn_length. nlia. }
-  assert (NL : not_leading f (n0 - 1) C).
-  { apply not_leading_comment; [|exact HC0]. exact (inv_pos _ _ _ INV d0 n0 IN0 L0). }
-  assert (LL : leading_len (insert_line (n0 - 1) C f) = leading_len f).
-  { apply leading_len_insert; [nlia|exact NL]. }
-  (* every diagnostic of the new main comes from an old one on another line *)
-  assert (ORIG : forall d', In d' (main IGN nm st (insert_line (n0 - 1) C f) (map (shift_diag n0) raw)) ->
-            exists d m, In d (main IGN nm st f raw) /\ d' = shift_diag n0 d /\ d_line d = Some m /\ m <> n0
-                        /\ 1 <= m <= length f).
-  { intros d' IN. rewrite MAIN in IN. apply in_map_iff in IN. destruct IN as [d [E IN]].
-    apply filter_In in IN. destruct IN as [IN NF].
-    destruct (inv_lined _ _ _ INV d (main_In_raw _ _ _ _ IN)) as [m [Lm Rm]].
-    exists d, m. repeat split; try assumption; try (now symmetry); try lia.
-    intros ->. unfold fixed_by, targets_line in NF.
-    rewrite (inv_obey _ _ _ INV d (main_In_raw _ _ _ _ IN)), Lm, Nat.eqb_refl in NF. cbn [andb] in NF.
-    rewrite (inv_one _ _ _ INV d d0 n0 IN IN0 Lm L0), N.eqb_refl in NF. discriminate. }
-  constructor.
-  - intros d' IN. apply in_map_iff in IN. destruct IN as [d [<- IN]].
-    destruct (inv_lined _ _ _ INV d IN) as [m [Lm Rm]]. cbn [shift_diag d_line]. rewrite Lm.
-    eexists. split; [reflexivity|]. rewrite LEN. destruct (n0 <=? m); lia.
-  - intros d' IN. apply in_map_iff in IN. destruct IN as [d [<- IN]]. cbn. exact (inv_obey _ _ _ INV d IN).
-  - intros d' IN. apply in_map_iff in IN. destruct IN as [d [<- IN]]. cbn. exact (inv_codes _ _ _ INV d IN).
-  - intros d' n' IN L'. destruct (ORIG d' IN) as [d [m [INd [-> [Lm [NE Rm]]]]]].
-    cbn [shift_diag d_line] in L'. rewrite Lm in L'. inversion L' as [E']. clear L'.
-    destruct (inv_pos _ _ _ INV d m INd Lm) as [P1 P2]. rewrite LL.
-    destruct (n0 <=? m) eqn:GE.
-    + apply Nat.leb_le in GE. destruct NL as [NL1 _]. split; [lia|]. intros E. lia.
-    + apply Nat.leb_gt in GE. split; [exact P1|]. intros E.
+  intros st f raw d0 rest n0 INV M L0.
+  destruct (first_lined_main st f raw d0 rest INV M) as [n [Ln [_ [R0 [OB [HC0 CL]]]]]].
+  rewrite L0 in Ln. inversion Ln; subst n. clear Ln.
+  destruct CL as [SH [OWN [NBL EB]]].
+  unfold step_file, step_raw. destruct (use_trailing IGN f n0).
+  - (* trailing: same raw stream, one line replaced *)
+    assert (LEN : length (set_line (n0 - 1) (trail_line IGN nm (line_at f (n0 - 1)) (d_code d0)) f) = length f).
+    { unfold set_line. rewrite app_length. cbn [length]. rewrite firstn_length, skipn_length. nlia. }
+    constructor.
+    + intros d IN. destruct (inv_lined _ _ INV d IN) as [m [Lm Rm]]. exists m. rewrite LEN. auto.
+    + exact (inv_obey _ _ INV).
+    + exact (inv_codes _ _ INV).
+    + intros d m IN Lm. destruct (inv_lined _ _ INV d IN) as [m' [Lm' Rm]]. rewrite Lm in Lm'. inversion Lm'; subst m'.
+      rewrite line_at_set_line by nlia.
+      destruct (Nat.eqb (m - 1) (n0 - 1)) eqn:E.
+      * destruct (trail_line_shape (line_at f (n0 - 1)) (d_code d0) NBL SH) as [A [B1 [C D]]].
+        repeat split; assumption.
+      * exact (inv_line _ _ INV d m IN Lm).
+  - (* comment line above: everything moves down with its line *)
+    set (C := comment_line IGN nm (indentation (line_at f (n0 - 1))) (Some (d_code d0))).
+    assert (LEN : length (insert_line (n0 - 1) C f) = S (length f)).
+    { unfold insert_line. rewrite app_length. cbn [length]. rewrite firstn_length, skipn_length. nlia. }
+    constructor.
+    + intros d' IN. apply in_map_iff in IN. destruct IN as [d [<- IN]].
+      destruct (inv_lined _ _ INV d IN) as [m [Lm Rm]]. cbn [shift_diag d_line]. rewrite Lm.
+      eexists. split; [reflexivity|]. rewrite LEN. destruct (n0 <=? m); lia.
+    + intros d' IN. apply in_map_iff in IN. destruct IN as [d [<- IN]]. cbn. exact (inv_obey _ _ INV d IN).
+    + intros d' IN. apply in_map_iff in IN. destruct IN as [d [<- IN]]. cbn. exact (inv_codes _ _ INV d IN).
+    + intros d' m' IN L'. apply in_map_iff in IN. destruct IN as [d [<- IN]].
+      destruct (inv_lined _ _ INV d IN) as [m [Lm Rm]].
+      cbn [shift_diag d_line] in L'. rewrite Lm in L'. inversion L' as [E']. clear L'.
+      pose proof (inv_line _ _ INV d m IN Lm) as CLm.
       rewrite line_at_insert_line by nlia.
-      replace (m - 1 <? n0 - 1) with true by (symmetry; apply Nat.ltb_lt; lia). now apply P2.
-  - intros d' n' IN L' GE2. destruct (ORIG d' IN) as [d [m [INd [-> [Lm [NE Rm]]]]]].
-    cbn [shift_diag d_line] in L'. rewrite Lm in L'. inversion L' as [E']. clear L'.
-    rewrite line_at_insert_line by nlia.
-    destruct (n0 <=? m) eqn:GE.
-    + apply Nat.leb_le in GE.
-      replace (S m - 2 <? n0 - 1) with false by (symmetry; apply Nat.ltb_ge; lia).
-      replace (Nat.eqb (S m - 2) (n0 - 1)) with false by (symmetry; apply Nat.eqb_neq; lia).
-      replace (S m - 2 - 1) with (m - 2) by lia. apply (inv_prev _ _ _ INV d m INd Lm). lia.
-    + apply Nat.leb_gt in GE.
-      replace (m - 2 <? n0 - 1) with true by (symmetry; apply Nat.ltb_lt; lia).
-      apply (inv_prev _ _ _ INV d m INd Lm). lia.
-  - intros d1' d2' n' IN1 IN2 L1 L2.
-    destruct (ORIG d1' IN1) as [d1 [m1 [INd1 [-> [Lm1 _]]]]].
-    destruct (ORIG d2' IN2) as [d2 [m2 [INd2 [-> [Lm2 _]]]]].
-    cbn [shift_diag d_line d_code] in *. rewrite Lm1 in L1. rewrite Lm2 in L2.
-    inversion L1 as [E1]. inversion L2 as [E2]. rewrite <- E2 in E1. apply shift_line_inj in E1. subst m2.
-    exact (inv_one _ _ _ INV d1 d2 m1 INd1 INd2 Lm1 Lm2).
+      destruct (n0 <=? m) eqn:GE.
+      * apply Nat.leb_le in GE.
+        replace (S m - 1 <? n0 - 1) with false by (symmetry; apply Nat.ltb_ge; lia).
+        replace (Nat.eqb (S m - 1) (n0 - 1)) with false by (symmetry; apply Nat.eqb_neq; lia).
+        replace (S m - 1 - 1) with (m - 1) by lia. exact CLm.
+      * apply Nat.leb_gt in GE.
+        replace (m - 1 <? n0 - 1) with true by (symmetry; apply Nat.ltb_lt; lia). exact CLm.
 Qed.
 
 (* ------------------------------------------------------------------ *)
-(* 4. termination                                                      *)
+(* termination                                                          *)
 
 Lemma filter_len_le : forall {A} (p : A -> bool) l, length (filter p l) <= length l.
 Proof. intros A p l. induction l as [|y r IHr]; cbn; [lia|]. destruct (p y); cbn; lia. Qed.
@@ -422,154 +569,136 @@ Proof.
   - specialize (IHr IN PX). destruct (p y); cbn; lia.
 Qed.
 
-Lemma fix_step_none : forall st f raw, st U = false -> st B = false ->
-  main IGN nm st f raw = [] -> fix_step IGN nm st U B f raw = None.
-Proof. intros st f raw HU HB M. unfold fix_step. rewrite emit_no_tail, M by assumption. reflexivity. Qed.
-
-Lemma fix_step_some : forall st f raw d0 rest n0, st U = false -> st B = false ->
-  fix_inv st f raw -> main IGN nm st f raw = d0 :: rest -> d_line d0 = Some n0 ->
-  fix_step IGN nm st U B f raw
-  = Some (insert_line (n0 - 1) (comment_line IGN nm (indentation (line_at f (n0 - 1))) (Some (d_code d0))) f,
-          map (shift_diag n0) raw).
-Proof.
-  intros st f raw d0 rest n0 HU HB INV M L0. unfold fix_step. rewrite emit_no_tail by assumption.
-  destruct (first_lined_main st f raw d0 rest INV M) as [n [Ln FL]]. rewrite L0 in Ln. inversion Ln; subst n.
-  rewrite FL. f_equal. f_equal. apply apply_add_ignore.
-  assert (IN0 : In d0 (main IGN nm st f raw)) by (rewrite M; now left).
-  destruct (inv_lined _ _ _ INV d0 (main_In_raw _ _ _ _ IN0)) as [n [Ln' R]]. rewrite L0 in Ln'. inversion Ln'. now subst.
-Qed.
+(* only comments were added: every step inserts a comment-only line or appends a trailing comment *)
+Inductive comment_edit : file -> file -> Prop :=
+| ce_refl : forall f, comment_edit f f
+| ce_insert : forall f f' i C, comment_only C = true ->
+    comment_edit (insert_line i C f) f' -> comment_edit f f'
+| ce_trail : forall f f' i c, i < length f ->
+    comment_edit (set_line i (trail_line IGN nm (line_at f i) c) f) f' -> comment_edit f f'.
 
 Theorem add_ignores_terminates : forall k st f raw,
   st U = false -> st B = false ->
-  fix_inv st f raw -> length (main IGN nm st f raw) <= k ->
+  fix_inv f raw -> length (main IGN nm st f raw) <= k ->
   exists f' raw',
     iterate IGN nm k st U B f raw = Some (f', raw') /\
     emit IGN nm st f' U B raw' = [] /\
-    code_lines f' = code_lines f.
+    comment_edit f f'.
 Proof.
   induction k as [|k IHk]; intros st f raw HU HB INV LE.
   - destruct (main IGN nm st f raw) as [|d0 rest] eqn:M; [|cbn in LE; lia].
     exists f, raw. cbn [iterate]. rewrite (fix_step_none st f raw HU HB M).
-    split; [reflexivity|]. split; [|reflexivity]. now rewrite emit_no_tail, M.
+    split; [reflexivity|]. split; [|constructor]. now rewrite emit_no_tail, M.
   - destruct (main IGN nm st f raw) as [|d0 rest] eqn:M.
     + exists f, raw. cbn [iterate]. rewrite (fix_step_none st f raw HU HB M).
-      split; [reflexivity|]. split; [|reflexivity]. now rewrite emit_no_tail, M.
-    + destruct (first_lined_main st f raw d0 rest INV M) as [n0 [L0 _]].
-      set (C := comment_line IGN nm (indentation (line_at f (n0 - 1))) (Some (d_code d0))).
-      pose proof (fix_step_inv st f raw d0 rest n0 INV M L0) as INV'. fold C in INV'.
-      pose proof (fix_step_main st f raw d0 rest n0 INV M L0) as MAIN. fold C in MAIN.
-      assert (LT : length (main IGN nm st (insert_line (n0 - 1) C f) (map (shift_diag n0) raw)) <= k).
+      split; [reflexivity|]. split; [|constructor]. now rewrite emit_no_tail, M.
+    + destruct (fix_step_some st f raw d0 rest HU HB INV M) as [n0 [L0 FS]].
+      pose proof (fix_step_inv st f raw d0 rest n0 INV M L0) as INV'.
+      pose proof (fix_step_main st f raw d0 rest n0 INV M L0) as MAIN.
+      destruct (first_lined_main st f raw d0 rest INV M) as [n [Ln [_ [R0 [OB _]]]]].
+      rewrite L0 in Ln. inversion Ln; subst n. clear Ln.
+      assert (LT : length (main IGN nm st (step_file f n0 (d_code d0)) (step_raw f n0 raw)) <= k).
       { rewrite MAIN, map_length.
         assert (length (filter (fun d => negb (fixed_by n0 (d_code d0) d)) (main IGN nm st f raw))
                 < length (main IGN nm st f raw)).
         { apply (filter_removes_one _ _ d0); [rewrite M; now left|].
-          unfold fixed_by, targets_line. rewrite L0, Nat.eqb_refl, N.eqb_refl.
-          assert (IN0 : In d0 (main IGN nm st f raw)) by (rewrite M; now left).
-          now rewrite (inv_obey _ _ _ INV d0 (main_In_raw _ _ _ _ IN0)). }
+          unfold fixed_by, targets_line. now rewrite L0, OB, Nat.eqb_refl, N.eqb_refl. }
         assert (LEN : length (main IGN nm st f raw) <= S k) by (rewrite M; exact LE).
         lia. }
-      destruct (IHk st _ _ HU HB INV' LT) as [f' [raw' [IT [EM CL]]]].
-      exists f', raw'. cbn [iterate]. rewrite (fix_step_some st f raw d0 rest n0 HU HB INV M L0). fold C.
-      split; [exact IT|]. split; [exact EM|]. rewrite CL. apply code_lines_insert, comment_line_comment_only.
+      destruct (IHk st _ _ HU HB INV' LT) as [f' [raw' [IT [EM CE]]]].
+      exists f', raw'. cbn [iterate]. rewrite FS.
+      split; [exact IT|]. split; [exact EM|].
+      unfold step_file in CE. destruct (use_trailing IGN f n0).
+      * eapply ce_trail; [|exact CE]. nlia.
+      * eapply ce_insert; [|exact CE]. apply comment_line_comment_only.
 Qed.
 
 (* ------------------------------------------------------------------ *)
-(* 5. the guard as a boolean (evaluated by the harness on every case)   *)
+(* the guard as a boolean (evaluated by the harness on every case)      *)
 
 Definition line_of (d : diag) : nat := match d_line d with Some n => n | None => 0 end.
 
-Definition base_okb (f : file) (raw : list diag) : bool :=
-  forallb (fun d => match d_line d with Some n => (1 <=? n) && (n <=? length f) | None => false end
-                    && d_obey d && (d_code d <? n_codes)%N) raw.
+Definition code_lineb (l : line) : bool :=
+  negb (starts_hash l) && negb (own_any IGN l)
+  && negb (match lstrip l with [] => true | _ => false end) && negb (ends_backslash (rstrip l)).
 
-(* clause `first_code_line`: the comment would land at column 0 directly below the leading '#' block *)
-Definition pos_okb (f : file) (d : diag) : bool :=
-  let n := line_of d in
-  (leading_len f <=? n - 1)
-  && (negb (Nat.eqb (leading_len f) (n - 1)) || negb (Nat.eqb (indentation (line_at f (n - 1))) 0)).
-(* clause `comment_above`: the line above is already an own-line ignore comment *)
-Definition prev_okb (f : file) (d : diag) : bool :=
-  let n := line_of d in (n <? 2) || negb (own_any IGN (line_at f (n - 2))).
-(* clause `two_codes_one_line` *)
-Definition one_okb (M : list diag) (d : diag) : bool :=
-  forallb (fun d2 => negb (Nat.eqb (line_of d2) (line_of d)) || N.eqb (d_code d2) (d_code d)) M.
+Definition fix_guardb (f : file) (raw : list diag) : bool :=
+  forallb (fun d => match d_line d with
+                    | Some n => (1 <=? n) && (n <=? length f) && code_lineb (line_at f (n - 1))
+                    | None => false
+                    end && d_obey d && (d_code d <? n_codes)%N) raw.
 
-Definition fix_guardb (st : settings) (f : file) (raw : list diag) : bool :=
-  base_okb f raw
-  && let M := main IGN nm st f raw in
-     forallb (fun d => pos_okb f d && prev_okb f d && one_okb M d) M.
-
-Theorem fix_guardb_sound : forall st f raw, fix_guardb st f raw = true -> fix_inv st f raw.
+Theorem fix_guardb_sound : forall f raw, fix_guardb f raw = true -> fix_inv f raw.
 Proof.
-  intros st f raw G. unfold fix_guardb in G. apply andb_true_iff in G. destruct G as [BO MG].
-  unfold base_okb in BO. rewrite forallb_forall in BO. rewrite forallb_forall in MG.
+  intros f raw G. unfold fix_guardb in G. rewrite forallb_forall in G.
   assert (BASE : forall d, In d raw ->
-            (exists n, d_line d = Some n /\ 1 <= n <= length f) /\ d_obey d = true /\ (d_code d < n_codes)%N).
-  { intros d IN. specialize (BO d IN). apply andb_true_iff in BO. destruct BO as [BO C].
-    apply andb_true_iff in BO. destruct BO as [L O]. destruct (d_line d) as [n|]; [|discriminate].
-    apply andb_true_iff in L. destruct L as [L1 L2]. apply Nat.leb_le in L1. apply Nat.leb_le in L2.
-    apply N.ltb_lt in C. split; [exists n; split; [reflexivity|lia]|]. split; assumption. }
+            (exists n, d_line d = Some n /\ 1 <= n <= length f /\ code_line (line_at f (n - 1)))
+            /\ d_obey d = true /\ (d_code d < n_codes)%N).
+  { intros d IN. specialize (G d IN). apply andb_true_iff in G. destruct G as [G C].
+    apply andb_true_iff in G. destruct G as [L O]. destruct (d_line d) as [n|]; [|discriminate].
+    apply andb_true_iff in L. destruct L as [L CLb]. apply andb_true_iff in L. destruct L as [L1 L2].
+    apply Nat.leb_le in L1. apply Nat.leb_le in L2. apply N.ltb_lt in C.
+    split; [|split; assumption]. exists n. split; [reflexivity|]. split; [lia|].
+    unfold code_lineb in CLb.
+    apply andb_true_iff in CLb. destruct CLb as [CLb E4]. apply andb_true_iff in CLb. destruct CLb as [CLb E3].
+    apply andb_true_iff in CLb. destruct CLb as [E1 E2].
+    apply negb_true_iff in E1. apply negb_true_iff in E2. apply negb_true_iff in E4.
+    repeat split; try assumption.
+    - intros c. now apply own_hit_own_any.
+    - intros E. rewrite E in E3. discriminate. }
   constructor.
+  - intros d IN. destruct (BASE d IN) as [[n [L [R _]]] _]. eauto.
   - intros d IN. apply BASE, IN.
   - intros d IN. apply BASE, IN.
-  - intros d IN. apply BASE, IN.
-  - intros d n IN L. specialize (MG d IN). apply andb_true_iff in MG. destruct MG as [MG _].
-    apply andb_true_iff in MG. destruct MG as [P _]. unfold pos_okb, line_of in P. rewrite L in P.
-    apply andb_true_iff in P. destruct P as [P1 P2]. apply Nat.leb_le in P1. split; [exact P1|].
-    intros E. apply orb_true_iff in P2. destruct P2 as [P2|P2]; apply negb_true_iff in P2.
-    + apply Nat.eqb_neq in P2. contradiction.
-    + now apply Nat.eqb_neq in P2.
-  - intros d n IN L GE. specialize (MG d IN). apply andb_true_iff in MG. destruct MG as [MG _].
-    apply andb_true_iff in MG. destruct MG as [_ P]. unfold prev_okb, line_of in P. rewrite L in P.
-    apply orb_true_iff in P. destruct P as [P|P]; [apply Nat.ltb_lt in P; lia|now apply negb_true_iff in P].
-  - intros d1 d2 n IN1 IN2 L1 L2. specialize (MG d2 IN2). apply andb_true_iff in MG. destruct MG as [_ P].
-    unfold one_okb in P. rewrite forallb_forall in P. specialize (P d1 IN1). unfold line_of in P.
-    rewrite L1, L2, Nat.eqb_refl in P. cbn in P. now apply N.eqb_eq.
+  - intros d n IN L. destruct (BASE d IN) as [[n' [L' [_ CL]]] _]. rewrite L in L'. inversion L'; subst. exact CL.
 Qed.
 
 (* ------------------------------------------------------------------ *)
-(* 6. witnesses: what happens outside the guard                         *)
+(* witnesses                                                            *)
 
 Definition all_but_tail : settings := fun c => negb (N.eqb c U) && negb (N.eqb c B).
 
-(* two codes on one line: each new comment pushes the previous one away from
-   the line; the loop is still running when the iteration limit is reached *)
-Definition two_codes_file : file := [[100%N]; [32%N; 32%N; 120%N]].
-Definition two_codes_raw : list diag := [mk_diag 1 3 (Some 2) 2 true; mk_diag 2 9 (Some 2) 6 true].
+(* three codes on one line: one comment line above, two trailing comments; ends after three steps *)
+Definition three_codes_file : file := [[100%N]; [32%N; 32%N; 120%N]].
+Definition three_codes_raw : list diag :=
+  [mk_diag 1 3 (Some 2) 2 true; mk_diag 2 9 (Some 2) 6 true; mk_diag 3 8 (Some 2) 9 true].
 
-Lemma two_codes_diverges : iterate IGN nm 150 all_but_tail U B two_codes_file two_codes_raw = None
-  /\ base_okb two_codes_file two_codes_raw = true
-  /\ fix_guardb all_but_tail two_codes_file two_codes_raw = false.
-Proof. vm_compute. auto. Qed.
+Lemma three_codes_terminate :
+  fix_guardb three_codes_file three_codes_raw = true /\
+  exists f' raw', iterate IGN nm 3 all_but_tail U B three_codes_file three_codes_raw = Some (f', raw')
+    /\ length f' = 3 /\ emit IGN nm all_but_tail f' U B raw' = [].
+Proof. split; [vm_compute; reflexivity|]. eexists. eexists. vm_compute. repeat split. Qed.
 
-(* a reported line directly below the (possibly empty) leading '#' block, at column 0:
-   the inserted comment is a file-level ignore and silences a diagnostic two lines below *)
+(* a reported line 1 at column 0: trailing comment, the diagnostic two lines below is still reported *)
 Definition first_line_file : file := [[120%N]; [121%N]; [122%N]].
 Definition first_line_raw : list diag := [mk_diag 1 3 (Some 1) 0 true; mk_diag 2 3 (Some 3) 0 true].
 
-Lemma first_line_becomes_file_level :
+Lemma first_line_not_file_level :
   exists f' raw', fix_step IGN nm all_but_tail U B first_line_file first_line_raw = Some (f', raw')
-    /\ main IGN nm all_but_tail first_line_file first_line_raw = first_line_raw
-    /\ main IGN nm all_but_tail f' raw' = []
-    /\ base_okb first_line_file first_line_raw = true
-    /\ fix_guardb all_but_tail first_line_file first_line_raw = false.
+    /\ length f' = 3 /\ main IGN nm all_but_tail f' raw' = [mk_diag 2 3 (Some 3) 0 true].
 Proof. eexists. eexists. vm_compute. repeat split. Qed.
 
-(* with unused_ignore enabled the loop never ends either: the report for an
-   unused comment ignores ignore comments, yet a comment is added for it *)
-Definition unused_file : file := [[100%N]; [32%N; 32%N; 120%N; 32%N] ++ tag IGN nm 8%N].
-Definition unused_raw : list diag := [].
+(* before the repair (comment line always above): two codes alternate until the iteration limit *)
+Definition old_fix_step (st : settings) (f : file) (raw : list diag) : option (file * list diag) :=
+  match first_lined (emit IGN nm st f U B raw) with
+  | Some d => match d_line d with
+              | Some ln => Some (insert_line (ln - 1) (comment_line IGN nm (indentation (line_at f (ln - 1))) (Some (d_code d))) f,
+                                 map (shift_diag ln) raw)
+              | None => None
+              end
+  | None => None
+  end.
+Fixpoint old_iterate (fuel : nat) (st : settings) (f : file) (raw : list diag) : option (file * list diag) :=
+  match old_fix_step st f raw with
+  | None => Some (f, raw)
+  | Some (f', raw') => match fuel with 0 => None | S k => old_iterate k st f' raw' end
+  end.
 
-Lemma unused_ignore_enabled_diverges :
-  iterate IGN nm 150 (fun c => negb (N.eqb c B)) U B unused_file unused_raw = None.
+Lemma unrepaired_two_codes_diverge :
+  old_iterate 150 all_but_tail three_codes_file (firstn 2 three_codes_raw) = None.
 Proof. vm_compute. reflexivity. Qed.
 
-(* the guard is satisfiable by a non-trivial input: three diagnostics, two codes, three lines *)
-Definition ok_file : file := [[100%N]; [32%N; 32%N; 120%N]; [32%N; 32%N; 121%N]; []; [32%N; 32%N; 122%N]].
-Definition ok_raw : list diag :=
-  [mk_diag 1 3 (Some 2) 2 true; mk_diag 2 9 (Some 3) 2 true; mk_diag 3 3 (Some 5) 2 true; mk_diag 4 3 (Some 5) 4 true].
-
-Lemma guard_inhabited :
-  fix_guardb all_but_tail ok_file ok_raw = true /\ length (main IGN nm all_but_tail ok_file ok_raw) = 4
-  /\ exists f' raw', iterate IGN nm 4 all_but_tail U B ok_file ok_raw = Some (f', raw') /\ length f' = 8.
-Proof. split; [vm_compute; reflexivity|]. split; [vm_compute; reflexivity|]. eexists. eexists. vm_compute. split; reflexivity. Qed.
+(* the reported line ends in a backslash: the guard excludes it (the comment then goes above the line) *)
+Lemma guard_excludes_backslash :
+  fix_guardb [[100%N]; [32%N; 120%N; 32%N; 92%N]; [32%N; 121%N]] [mk_diag 1 3 (Some 2) 1 true] = false.
+Proof. vm_compute. reflexivity. Qed.
